@@ -96,7 +96,7 @@ def run(ctx):
     judge(ctx, recs, 'generated')
     # 4. L2 binding: SynthOpt.tla (builder + optimiser transcribed; TLC checked above that each of its rewrites
     #    preserves the denotation) must PREDICT the emitted definition exactly; a difference is model drift
-    sample = recs if thorough else recs[::4]
+    sample = recs if thorough else recs[::5]
     vd = ctx.validate('TraceSynthOpt', 'TraceSynthOpt.cfg', [sp.c01_trace(r_) for r_ in sample], timeout=3000,
                       env={'JAVA_TOOL_OPTIONS': sp.JVM_OPTS, 'VERIF_SLICE': 'coverS'})
     ndrift = 0
